@@ -70,6 +70,26 @@ def _replay_force(force, existing, state):
         shutil.rmtree(d, ignore_errors=True)
 
 
+def _schema_first(cls):
+    """the first content-affecting statements create the schema: one script whose text is constants.SCHEMA, or the CREATE TABLE
+    statements of constants.SCHEMA run one by one (the same statements, same order, none with IF NOT EXISTS); returns
+    (ok, number of leading schema statements)"""
+    import re
+    content = [c for c in cls if c.kind in ("insert", "update", "delete", "script", "ddl")]
+    norm = lambda t: " ".join(str(t).replace(";", " ; ").split()).strip(" ;").upper()
+    if "IF NOT EXISTS" in constants.SCHEMA.upper() or not content:
+        return False, 0
+    if content[0].kind == "script":
+        return norm(content[0].raw) == norm(constants.SCHEMA), 1
+    want = [norm(x) for x in re.findall(r"CREATE\s+TABLE.*?\)\s*;", constants.SCHEMA, re.S | re.I)]
+    got = []
+    for c in content:
+        if c.kind != "ddl":
+            break
+        got.append(norm(c.raw))
+    return bool(got) and got == want[:len(got)], len(got)
+
+
 def unit_force(U):
     for force in (False, True):
         for existing in (False, True):
@@ -93,14 +113,14 @@ def unit_force(U):
                 cls = IM.classify([e for e in effs if e[0] in ("execute", "executemany", "executescript")])
                 content = [c for c in cls if c.kind in ("insert", "update", "delete", "script")]
                 if existing and not force:
-                    ok = (p.kind == "raise" and not unlinks and len(content) == 1 and content[0].kind == "script"
-                          and " ".join(str(content[0].raw).split()) == " ".join(constants.SCHEMA.split()) and "IF NOT EXISTS" not in constants.SCHEMA.upper())
+                    sch_ok, nsch = _schema_first(cls)
+                    ok = p.kind == "raise" and not unlinks and sch_ok and nsch == 1 and len([c for c in cls if c.kind in ("insert", "update", "delete", "script", "ddl")]) == 1
                     U.prove(base + ".refuse#p%d" % p.index, "existing database, force=False ==> raises; no unlink; schema creation is the first content-affecting statement and fails before any row is written",
                             [], z3.BoolVal(bool(ok)), {}, replay=replay)
                 else:
                     # the connection the schema is created on: the last one opened before the first content-affecting statement
                     first_content = min([i for i, e in enumerate(effs) if e[0] in ("execute", "executemany", "executescript")
-                                         and IM.classify([e])[0].kind in ("insert", "update", "delete", "script")] or [len(effs)])
+                                         and IM.classify([e])[0].kind in ("insert", "update", "delete", "script", "ddl")] or [len(effs)])
                     conns = [i for i, e in enumerate(effs) if e[0] == "connect" and i < first_content]
                     first_connect = conns[-1] if conns else -1
                     if force and existing:
@@ -109,7 +129,7 @@ def unit_force(U):
                     else:
                         ok = p.kind == "return" and not unlinks
                         text = "no existing file ==> nothing is unlinked"
-                    ok = ok and bool(content) and content[0].kind == "script"
+                    ok = ok and _schema_first(cls)[0]
                     U.prove(base + ".fresh#p%d" % p.index, text, [], z3.BoolVal(bool(ok)), {}, replay=replay)
 
 
